@@ -1,5 +1,7 @@
 package main
 
+import "fmt"
+
 // C07 — lax absorbs structural mismatches, strict reports each one.
 
 func c07Alphabet() []*Expr {
@@ -31,7 +33,7 @@ func checkC07(c Case) *Failure {
 }
 
 func runC07(r *Run) {
-	r.Rule("every chain of <= L steps over the accessor/filter alphabet (.a .b .* [*] .** .**{1} [i] [i to j] [i,j] [i,j,k] with literal and last-relative bounds, filters over them; and chains of <= 2 over subscripts with fractional / negative bounds -0.5 -0.9 0.5 -1 -1.5 1.5 0.999 last-0.5 last-1.5 0.5-1 as single subscript, range start, range end and list member; and conditions (==, !=, exists, !) over operands @[r].a, @.a[r].a, @[r] ? (exists(@.a)).a, @[r][*], @[r].* for 6 subscript lists/ranges r under 4 prefixes x 144 documents placing 6 element kinds at every position) x every JSON document with <= K nodes over scalars {null,1}, keys {a,b} x {lax,strict} x {float64,json.Number}; oracle: reference interpreter (lax: no error and same items; strict: suppressible structural error exactly when the reference's complete evaluation meets a mismatch, else same items); non-trivial = reference yields items or an error")
+	r.Rule("every chain of <= L steps over the accessor/filter alphabet (.a .b .* [*] .** .**{1} [i] [i to j] [i,j] [i,j,k] with literal and last-relative bounds, filters over them; and chains of <= 2 over subscripts with fractional / negative bounds -0.5 -0.9 0.5 -1 -1.5 1.5 0.999 last-0.5 last-1.5 0.5-1 as single subscript, range start, range end and list member; and conditions (==, !=, exists, !) over operands @[r].a, @.a[r].a, @[r] ? (exists(@.a)).a, @[r][*], @[r].* for 6 subscript lists/ranges r under 4 prefixes x 144 documents placing 6 element kinds at every position; 18 paths over 7 large documents: arrays of 2,200-3,000 elements, an object of 2,500 members, nesting 1,200-1,500 deep) x every JSON document with <= K nodes over scalars {null,1}, keys {a,b} x {lax,strict} x {float64,json.Number}; oracle: reference interpreter (lax: no error and same items; strict: suppressible structural error exactly when the reference's complete evaluation meets a mismatch, else same items); non-trivial = reference yields items or an error")
 	alpha := c07Alphabet()
 	L, K := 3, 4
 	if r.Thorough() {
@@ -79,6 +81,37 @@ func runC07(r *Run) {
 	r.Bound("subscripted_operand_paths", 2*len(opaths))
 	r.Bound("subscripted_operand_documents", len(ovals))
 	refSweep(r, "subscripted-operands-in-conditions", bothModes(opaths), makeDocs(ovals), cfgsNum())
+	// large documents: a step executed thousands of times in one call, deep and wide values (nothing
+	// may accumulate per executed step)
+	var big []any
+	ints, rows, pairs := make([]any, 3000), make([]any, 2500), make([]any, 2200)
+	wide := map[string]any{}
+	for i := range ints {
+		ints[i] = float64(i)
+	}
+	for i := range rows {
+		rows[i] = map[string]any{"a": float64(i), "b": []any{float64(i)}}
+		wide[fmt.Sprint("k", i)] = float64(i)
+	}
+	for i := range pairs {
+		pairs[i] = []any{float64(i), "x"}
+	}
+	var deep any = float64(1)
+	for i := 0; i < 1500; i++ {
+		deep = []any{deep}
+	}
+	var deepObj any = float64(1)
+	for i := 0; i < 1200; i++ {
+		deepObj = map[string]any{"a": deepObj}
+	}
+	big = append(big, ints, rows, pairs, wide, deep, deepObj, map[string]any{"rows": rows})
+	idx := func(e *Expr) *Expr { return sIndex(sub1(e)) }
+	bigPaths := []*Expr{eRoot(sAnyArray(), idx(eInt(0))), eRoot(sAnyArray(), idx(eLast())), eRoot(sAnyArray(), sFilter(eCmp(">=", eCur(idx(eInt(0))), eInt(0)))), eRoot(sIndex(subR(eInt(0), eLast()))),
+		eRoot(sAnyArray(), sKey("a")), eRoot(sAnyArray(), sKey("b"), idx(eInt(0))), eRoot(sKey("rows"), idx(eInt(0))), eRoot(sKey("rows"), sKey("b"), idx(eLast())), eRoot(sAnyKey()), eRoot(sAny(0, -1)),
+		eRoot(sAny(1400, -1)), eRoot(sAny(-1, -1)), eRoot(sAnyArray(), sFilter(eCmp(">", eCur(sKey("a")), eInt(2400)))), eRoot(sAnyArray(), sFilter(eExists(eCur(sKey("b"), idx(eInt(0)))))),
+		eRoot(sAnyArray(), idx(eInt(1)), sFilter(eCmp("==", eCur(), eStr("x")))), eRoot(sAnyArray(), sAnyArray(), idx(eInt(0))), eRoot(sAny(0, -1), sKey("a")), eRoot(sAny(0, -1), idx(eInt(0)))}
+	r.Bound("large_documents", len(big))
+	refSweep(r, "large-documents", bothModes(bigPaths), makeDocs(big), []sweepCfg{{Num: "float64"}})
 	if r.Thorough() {
 		// chains of four steps on the smaller document universe
 		docs3 := makeDocs(Docs(4, []any{nil, float64(1)}, stdKeys))
